@@ -1,6 +1,6 @@
 (* C02 — Integer solutions of the polyhedron are exactly the satisfying configurations.
    Only statements, `exact`, non-vacuity examples and Print Assumptions live here. *)
-Require Import Puan.Base Puan.Plog Puan.Sem Puan.EncodeFacts Puan.NegateFacts Puan.Errors Puan.ErrorsSpec Puan.Validated Puan.Link Puan.Cons Puan.SafeFacts.
+Require Import Puan.Base Puan.Plog Puan.Sem Puan.EncodeFacts Puan.NegateFacts Puan.Errors Puan.ErrorsSpec Puan.Validated Puan.Link Puan.Cons Puan.SafeFacts Puan.ColsFacts.
 Open Scope string_scope.
 
 (* no valid configuration is lost: a satisfying leaf assignment extends to a point of the
@@ -48,6 +48,43 @@ Theorem C02_sound_dense :
     eval (col_lookup (map fst cols) x) p = 1.
 Proof. exact dense_sound. Qed.
 Print Assumptions C02_sound_dense.
+
+(* ... and stated from validation itself: for a validated model (no by-id leaf references to
+   sub-propositions, generated flags coherent, every compound has a child) the column list that
+   to_ge_polyhedron(active=True) hands out has pairwise distinct ids, does not contain the root and
+   covers every occurrence below the root with its declared bounds *)
+Theorem C02_columns_validated :
+  forall m : prop,
+    errors2 m = [] -> no_bounds_hash_collision m -> no_value_hash_collision m ->
+    leaves_apart m -> gen_coherent m -> no_childless m ->
+    NoDup (map fst (columns true m)) /\ cols_cover m (columns true m) /\ ~ In (id_of m) (map fst (columns true m)).
+Proof. intros m He Hb Hv. exact (validated_columns m (conj He (conj Hb Hv))). Qed.
+Print Assumptions C02_columns_validated.
+
+(* so soundness holds of the polyhedron exactly as handed out, with no hypothesis about columns left:
+   any integer vector x within the column bounds that satisfies every row of the matrix makes a
+   validated solver-safe model true at the leaf values x assigns *)
+Theorem C02_sound_validated :
+  forall (m : prop) (x : list Z),
+    errors2 m = [] -> no_bounds_hash_collision m -> no_value_hash_collision m ->
+    leaves_apart m -> gen_coherent m -> no_childless m ->
+    is_var m = false -> plain_shape m -> solver_safe m = true ->
+    Forall2 (fun b v => fst b <= v <= snd b) (map snd (fst (to_ge_polyhedron true m))) x ->
+    Forall (sat_dense x) (snd (to_ge_polyhedron true m)) ->
+    eval (col_lookup (map fst (fst (to_ge_polyhedron true m))) x) m = 1.
+Proof. intros m x He Hb Hv. exact (validated_dense_sound m x (conj He (conj Hb Hv))). Qed.
+Print Assumptions C02_sound_validated.
+
+(* non-vacuity: S = Any(B = All(a,b), c) meets every hypothesis, with the vector [B;a;b;c] = [1;1;1;0] *)
+Example C02_sound_validated_nonvacuous :
+  (errors2 cols_s = [] /\ no_bounds_hash_collision cols_s /\ no_value_hash_collision cols_s) /\
+  leaves_apart cols_s /\ gen_coherent cols_s /\ no_childless cols_s /\
+  is_var cols_s = false /\ plain_shape cols_s /\ solver_safe cols_s = true /\
+  to_ge_polyhedron true cols_s = ([("B",(0,1)); ("a",(0,1)); ("b",(0,1)); ("c",(0,1))], [[1; 1; 0; 0; 1]; [0; -2; 1; 1; 0]]) /\
+  Forall2 (fun b v => fst b <= v <= snd b) (map snd (fst (to_ge_polyhedron true cols_s))) [1; 1; 1; 0] /\
+  Forall (sat_dense [1; 1; 1; 0]) (snd (to_ge_polyhedron true cols_s)).
+Proof. exact cols_example. Qed.
+Print Assumptions C02_sound_validated_nonvacuous.
 
 (* negation re-establishes solver-safe form (so C02_sound applies to Not(...) models) *)
 Theorem C02_negate_safe :
